@@ -16,7 +16,8 @@ RULE = ("(a) structural, exact: random rule sets (1..5 actions, 0..3 effects eac
         "multiset with the model's build. (b) seeded LIFRate simulation of blocks with 1..4 actions and winner sequences of "
         "2-3 phases (utility margin >= 0.5): thalamus one-hot-ness and the mean output of every target over the last 0.1 s "
         "of each phase (State: signal arriving at its input node; Scalar: decoded value) against the ideal model (tolerance 0.25 per dimension). Non-trivial: at least two actions and one "
-        "effect; distinct = distinct (rule set, seed, phase).")
+        "effect; distinct = distinct (rule set, seed, phase). Utilities reach the block as input on the ifmax handle, as a scalar module, "
+        "as a scaled scalar expression and as a dot product (rotating per action).")
 ASSUMPTIONS = ["winner-take-all dynamics of basal ganglia / thalamus are not modelled: the one-hot hypothesis of the theorem is observed "
                "(winner > 0.75, losers < 0.2) in every simulated phase",
                "dynamic effect sources are module outputs or constant multiples of them, so the value of each source expression is known (C01 covers compilation)"]
@@ -120,7 +121,30 @@ def build_block(targets, actions, ndyn, seed, neuron, utilities=None):
                         srcs[k] = spa.Scalar()
                     nengo.Connection(nengo.Node(val / SC), srcs[k].input, synapse=None)
         na = len(actions)
-        unodes = [nengo.Node((lambda i: (lambda t_: utilities(t_)[i]))(i) if utilities else 0.0) for i in range(na)]
+        ufun = [(lambda i: (lambda t_: float(utilities(t_)[i])))(i) if utilities else (lambda t_: 0.0) for i in range(na)]
+        unodes = [nengo.Node(ufun[i]) for i in range(na)]
+        # the utility of action i reaches the block in one of four ways (i mod 4): input on the handle ifmax returns, a scalar
+        # module as the condition, a scaled scalar expression, a dot product of a module output with a symbol
+        uconds = []
+        for i in range(na):
+            form = (i + len(actions[0])) % 4
+            if form == 0:
+                uconds.append(("handle", 0))
+            elif form == 1:
+                with nengo.Config(nengo.Ensemble) as cfg:
+                    cfg[nengo.Ensemble].neuron_type = nengo.Direct()
+                    um = spa.Scalar()
+                nengo.Connection(unodes[i], um.input, synapse=None)
+                uconds.append(("expr", um))
+            elif form == 2:
+                with nengo.Config(nengo.Ensemble) as cfg:
+                    cfg[nengo.Ensemble].neuron_type = nengo.Direct()
+                    um = spa.Scalar()
+                nengo.Connection(unodes[i], um.input, synapse=None, transform=2.0)
+                uconds.append(("expr", 0.5 * um))
+            else:
+                ut = spa.Transcode((lambda f: (lambda t_: f(t_) * np.eye(D)[0]))(ufun[i]), output_vocab=voc)
+                uconds.append(("expr", spa.dot(ut, spa.sym.E0)))
         with spa.ActionSelection() as acts:
             for i, effs in enumerate(actions):
                 routes = []
@@ -137,8 +161,10 @@ def build_block(targets, actions, ndyn, seed, neuron, utilities=None):
                         k, val, cst = p
                         src = srcs[k] if cst == 1 else cst * srcs[k]
                     routes.append(src >> tg[t])
-                handle = spa.ifmax(*(([f"act{i}"] if i % 2 == 0 else []) + [0] + routes))
-                nengo.Connection(unodes[i], handle, synapse=None)
+                kind_u, cond_u = uconds[i]
+                handle = spa.ifmax(*(([f"act{i}"] if i % 2 == 0 else []) + [cond_u] + routes))
+                if kind_u == "handle":
+                    nengo.Connection(unodes[i], handle, synapse=None)
         h.update(net=net, acts=acts, targets=tg, srcs=srcs, unodes=unodes, voc=voc)
     return h
 
